@@ -52,6 +52,8 @@ class ConcreteViolation(BaseException):
 
 
 _CTX = None
+import os as _os
+_DEBUG = bool(_os.environ.get('SYMX_DEBUG'))
 
 
 def ctx():
@@ -480,12 +482,26 @@ class Stats:
         self.obligations = 0
 
 
+SOLVER_KIND = 'default'
+
+
+def _make_solver():
+    if SOLVER_KIND == 'nlsat':
+        return z3.Tactic('qfnra-nlsat').solver()
+    if SOLVER_KIND == 'smt-nra':
+        return z3.Then('simplify', 'purify-arith', 'elim-term-ite', 'solve-eqs', 'qfnra-nlsat').solver()
+    return z3.Solver()
+
+
 class SymCtx:
     symbolic = True
 
-    def __init__(self, prefix=(), stats=None, timeout_ms=60000, probe_depth=None):
-        self.solver = z3.Solver()
+    def __init__(self, prefix=(), stats=None, timeout_ms=int(_os.environ.get('SYMX_TIMEOUT_MS', '60000')), probe_depth=None):
+        self.solver = _make_solver()
         self.solver.set('timeout', timeout_ms)
+        self.timeout_ms = timeout_ms
+        self.nonlinear = False
+        self.known = []       # (Bool atom, BoolVal) decided on this path
         self.prefix = list(prefix)
         self.decisions = []
         self.forks = []
@@ -533,7 +549,10 @@ class SymCtx:
     def _check(self, *extra):
         t = time.perf_counter()
         r = self.solver.check(*extra)
-        self.stats.solver_time += time.perf_counter() - t
+        dt = time.perf_counter() - t
+        self.stats.solver_time += dt
+        if dt > 1.0 and _DEBUG:
+            print(f'[symx] slow query {dt:.1f}s -> {r}; extra={[str(e)[:200] for e in extra]}', flush=True)
         self.stats.queries += 1
         if r == z3.unknown:
             raise HarnessError(f'solver answered unknown: {self.solver.reason_unknown()}')
@@ -545,10 +564,25 @@ class SymCtx:
         if not self._check():
             raise PathAbort('assumption infeasible')
 
+    def _reduce(self, e):
+        """simplify `e` under the atoms whose value this path has already decided."""
+        e = z3.simplify(e)
+        if self.known and not (z3.is_true(e) or z3.is_false(e)):
+            e = z3.simplify(z3.substitute(e, *self.known))
+        return e
+
+    def _learn(self, e, c):
+        if z3.is_not(e):
+            e, c = e.arg(0), not c
+        if z3.is_const(e) and e.decl().kind() == z3.Z3_OP_UNINTERPRETED:
+            self.known.append((e, z3.BoolVal(c)))
+
     def decide(self, e):
         if isinstance(e, SymBool):
             e = e.z
-        e = z3.simplify(e)
+        if not isinstance(e, z3.ExprRef):
+            return bool(e)
+        e = self._reduce(e)
         if z3.is_true(e):
             return True
         if z3.is_false(e):
@@ -571,6 +605,7 @@ class SymCtx:
                 raise PathAbort('path condition infeasible')
         self.decisions.append(c)
         self.solver.add(e if c else z3.Not(e))
+        self._learn(e, c)
         return c
 
     def some_value(self, z):
@@ -593,8 +628,8 @@ class SymCtx:
         return out
 
     def nice_model(self, extra=None):
-        """A model of the path condition (plus `extra`) preferring small
-        dyadic values so that float replay is exact."""
+        """A model of the path condition (plus `extra`) preferring the hinted
+        (nominal) values, then small dyadic values, so that float replay is exact."""
         s = self.solver
         reals, ints = [], []
         for name, (kind, v) in self.inputs.items():
@@ -604,31 +639,51 @@ class SymCtx:
                 reals.append(v[0])
             elif kind == 'int':
                 ints.append(v)
-        levels = ((1, 50), (8, 200), (None, None))
-        if self.hints:
-            levels = (('hint', None),) + levels
-        for denom, bound in levels:
+
+        def attempt(constraints, timeout=None):
             s.push()
             try:
                 if extra is not None:
                     s.add(extra)
-                if denom == 'hint':
-                    for name, (v, h) in self.hints.items():
-                        s.add(v == _z3num(h))
-                elif denom is not None:
-                    for r in reals:
-                        s.add(z3.IsInt(r * denom), r >= -bound, r <= bound)
-                    for r in ints:
-                        s.add(r >= -bound * 20, r <= bound * 20)
+                for c in constraints:
+                    s.add(c)
+                if timeout:
+                    s.set('timeout', timeout)
                 try:
-                    ok = self._check()
+                    return s.model() if self._check() else None
                 except HarnessError:
-                    ok = False
-                if ok:
-                    return s.model()
+                    return None
+                finally:
+                    if timeout:
+                        s.set('timeout', self.timeout_ms)
             finally:
                 s.pop()
-        return None
+
+        if self.hints:
+            eqs = [v == _z3num(h) for (v, h) in self.hints.values()]
+            m = attempt(eqs)
+            if m is not None:
+                return m
+            if not self.nonlinear:
+                # greedy: keep every hint that stays satisfiable
+                kept = []
+                for e in eqs:
+                    if attempt(kept + [e], timeout=3000) is not None:
+                        kept.append(e)
+                m = attempt(kept)
+                if m is not None:
+                    return m
+        if not self.nonlinear:
+            for denom, bound in ((1, 50), (8, 200)):
+                cons = []
+                for r in reals:
+                    cons += [z3.IsInt(r * denom), r >= -bound, r <= bound]
+                for r in ints:
+                    cons += [r >= -bound * 20, r <= bound * 20]
+                m = attempt(cons)
+                if m is not None:
+                    return m
+        return attempt([])
 
     def check(self, cond, label):
         self.stats.obligations += 1
@@ -638,7 +693,7 @@ class SymCtx:
         if cond is False or (isinstance(cond, numpy.bool_) and not bool(cond)):
             z = z3.BoolVal(False)
         else:
-            z = z3.simplify(_zb(cond))
+            z = self._reduce(_zb(cond))
             if z3.is_true(z):
                 self.stats.queries += 1     # discharged by z3's simplifier
                 return
